@@ -97,7 +97,7 @@ func TestC30(t *testing.T) {
 		r.Inconclusive("corpus: " + err.Error())
 		return
 	}
-	cases := layoutCases(r, "c30", cs, r.N(400, 6000), r.N(2500, 40000))
+	cases := layoutCases(r, "c30", cs, r.N(400, 3000), r.N(2500, 20000))
 	r.Par(len(cases), func(i int) {
 		c := cases[i]
 		if !r.Want(c.ID) {
